@@ -10,8 +10,14 @@ from . import buildimpl, core
 from . import sysutil as S
 
 
-def run_cli(argv, d, cores, buffer_size=None, sched=None, timeout=60, trace=True):
-    """returns dict(exit, stderr, timed_out, trace=[event lines])"""
+SPAWN_MAIN = ("import multiprocessing, sys; multiprocessing.set_start_method(%r); sys.argv[0] = 'cutadapt'; "
+              "from cutadapt.cli import main_cli; main_cli()")
+
+
+def run_cli(argv, d, cores, buffer_size=None, sched=None, timeout=60, trace=True, start_method=None, nofile=None):
+    """returns dict(exit, stderr, timed_out, trace=[event lines]).  start_method: 'spawn'/'forkserver' -- the worker processes then
+    get the pipeline (adapters, finders, writers) through pickle, as on platforms where that is the default.  nofile: soft limit
+    on open files for the run"""
     env = buildimpl.impl_env()
     tpath = os.path.join(d, "trace.log")
     if os.path.exists(tpath):
@@ -22,12 +28,18 @@ def run_cli(argv, d, cores, buffer_size=None, sched=None, timeout=60, trace=True
             env["CUTADAPT_VERIF_SCHED"] = str(sched)
     else:
         env.pop("CUTADAPT_VERIF_TRACE", None)
-    cmd = [buildimpl.VENV_PY, "-m", "cutadapt", "-j", str(cores)]
+    cmd = [buildimpl.VENV_PY] + (["-c", SPAWN_MAIN % start_method] if start_method else ["-m", "cutadapt"]) + ["-j", str(cores)]
     if buffer_size is not None:
         cmd += ["--buffer-size", str(buffer_size)]
     cmd += argv
     import signal
-    p = subprocess.Popen(cmd, cwd=d, env=env, stdout=subprocess.PIPE, stderr=subprocess.PIPE, start_new_session=True)
+    pre = None
+    if nofile is not None:
+        def pre():
+            import resource
+            hard = resource.getrlimit(resource.RLIMIT_NOFILE)[1]
+            resource.setrlimit(resource.RLIMIT_NOFILE, (nofile, hard))
+    p = subprocess.Popen(cmd, cwd=d, env=env, stdout=subprocess.PIPE, stderr=subprocess.PIPE, start_new_session=True, preexec_fn=pre)
     try:
         out, err = p.communicate(timeout=timeout)
         res = {"exit": p.returncode, "stderr": err.decode(errors="replace"), "stdout": out.decode(errors="replace"), "timed_out": False}
@@ -43,7 +55,7 @@ def run_cli(argv, d, cores, buffer_size=None, sched=None, timeout=60, trace=True
     if os.path.exists(tpath):
         with open(tpath) as f:
             res["trace"] = [l.strip() for l in f if l.strip()]
-    res["cmd"] = cmd[2:]
+    res["cmd"] = cmd[(3 if start_method else 2):]
     return res
 
 
